@@ -30,8 +30,8 @@ const shimRoot = modulePath + "/verifx/"
 
 // import swaps: package directory (relative to repo root) -> import path -> shim package
 var swaps = map[string]map[string]string{
-	"pkg/authentication/basic": {"sync": "vsync", "sync/atomic": "vatomic"},
-	".":                        {"sync": "vsync", "sync/atomic": "vatomic"},
+	"pkg/authentication/basic": {"sync": "vsync", "sync/atomic": "vatomic", "time": "vtime"},
+	".":                        {"sync": "vsync", "sync/atomic": "vatomic", "time": "vtime"},
 	"pkg/encryption":           {"time": "vtime", "sync": "vsync", "sync/atomic": "vatomic"},
 	// session encoding / stores: nothing there uses sync today; the swap only takes effect for a
 	// file that starts to (a cache, a pool), and then its operations become scheduling points
@@ -221,7 +221,18 @@ func main() {
 			if *wide && fields != nil {
 				every = d
 			}
-			src, changed := rewriteFile(f, swaps[d], fields, pkgVars, every)
+			sw := swaps[d]
+			if d == "." && !mainOnly[filepath.Base(f)] {
+				// the virtual clock (and the timer model) only for the files of package main that hold
+				// the reload logic; request handling keeps the clock it has
+				sw = map[string]string{}
+				for k, v := range swaps[d] {
+					if k != "time" {
+						sw[k] = v
+					}
+				}
+			}
+			src, changed := rewriteFile(f, sw, fields, pkgVars, every, !*plain)
 			if !changed {
 				continue
 			}
@@ -456,7 +467,7 @@ func must(err error) {
 }
 
 // rewriteFile swaps imports and (optionally) instruments plain accesses.
-func rewriteFile(path string, swap map[string]string, fields, pkgVars map[string]bool, everyStmt string) ([]byte, bool) {
+func rewriteFile(path string, swap map[string]string, fields, pkgVars map[string]bool, everyStmt string, spawns bool) ([]byte, bool) {
 	fset := token.NewFileSet()
 	f, err := parser.ParseFile(fset, path, nil, parser.ParseComments)
 	must(err)
@@ -476,8 +487,14 @@ func rewriteFile(path string, swap map[string]string, fields, pkgVars map[string
 		imp.EndPos = 0
 		changed = true
 	}
+	spawned := spawns && rewriteSpawns(fset, f)
+	if spawned {
+		changed = true
+	}
+	instrumentedNow := false
 	if fields != nil {
 		if instrumentAccesses(fset, f, fields, pkgVars, everyStmt) {
+			instrumentedNow = true
 			changed = true
 			// comments inside function bodies are printed at unpredictable places once statements
 			// without positions are inserted next to them (a `/* #nosec */` ended up inside a
@@ -496,6 +513,10 @@ func rewriteFile(path string, swap map[string]string, fields, pkgVars map[string
 			}
 			f.Comments = keep
 		}
+	}
+	if spawned && !instrumentedNow {
+		addVrtImport(f)
+		f.Comments = directiveComments(f)
 	}
 	if !changed {
 		return nil, false
